@@ -38,13 +38,14 @@ Proof.
   - eexists; split; reflexivity.
   - destruct neg; eexists; split; reflexivity.
   - eexists; split; reflexivity.
+  - destruct s; [eexists; split; reflexivity|discriminate F].
   - eexists; split; reflexivity.
   - eexists; split; reflexivity.
 Qed.
 
-Lemma hdef_ranked_RL lvl e : efrag lvl e = true -> exists p, ref_rank (hdef e) = Some p /\ p < ROUND_LIMIT.
+Lemma hdef_ranked_RL lvl e : efrag lvl e = true -> is_seq e = false -> exists p, ref_rank (hdef e) = Some p /\ p < ROUND_LIMIT.
 Proof.
-  intros F. destruct e; try discriminate F; unfold hdef; cbn [head_tt].
+  intros F Hs. destruct e; try discriminate F; try discriminate Hs; unfold hdef; cbn [head_tt].
   - destruct l; eexists; split; reflexivity.
   - eexists; split; reflexivity.
   - eexists; split; reflexivity.
@@ -105,7 +106,7 @@ Proof. destruct d; intros H; try discriminate H; reflexivity. Qed.
 Definition left_open (e : expr) : bool :=
   match e with
   | EUn o _ => negb (is_prefix o)
-  | EBin _ _ _ | EAnd _ _ | EOr _ _ | EList _ _ _ | ECond _ _ _ | EElse _ _ => true
+  | EBin _ _ _ | EAnd _ _ | EOr _ _ | EList _ _ _ | ECond _ _ _ | EElse _ _ | ESeq _ _ _ => true
   | _ => false
   end.
 
@@ -162,7 +163,7 @@ Proof. cbn [paren_ok]. intros H. apply andb_true_iff in H. apply H. Qed.
 Lemma paren_ok_binary e t l r : as_binary e = Some (t, l, r) -> paren_ok e = true ->
   paren_ok l = true /\ paren_ok r = true.
 Proof.
-  intros Hb H. destruct e; try discriminate Hb; cbn [as_binary] in Hb; try (destruct k); injection Hb as <- <- <-;
+  intros Hb H. destruct e; try discriminate Hb; cbn [as_binary] in Hb; try (destruct k); try (destruct s; try discriminate Hb); injection Hb as <- <- <-;
     cbn [paren_ok] in H; apply andb_true_iff in H; destruct H as [_ H]; apply andb_true_iff in H; exact H.
 Qed.
 
@@ -171,7 +172,7 @@ Lemma ok_children_binary e t l r : as_binary e = Some (t, l, r) -> ok_children e
   then (prio l <? prio e) = true /\ (prio r <=? prio e) = true
   else (prio l <=? prio e) = true /\ (prio r <? prio e) = true.
 Proof.
-  intros Hb H. destruct e; try discriminate Hb; cbn [as_binary] in Hb; try (destruct k); injection Hb as <- <- <-.
+  intros Hb H. destruct e; try discriminate Hb; cbn [as_binary] in Hb; try (destruct k); try (destruct s; try discriminate Hb); injection Hb as <- <- <-.
   - destruct o; cbn [ok_children] in H; unfold ok_left_ltr, ok_right_ltr, ok_left_rtl, ok_right_rtl in H;
       apply andb_true_iff in H; exact H.
   - cbn [ok_children] in H. apply andb_true_iff in H. exact H.
@@ -179,6 +180,7 @@ Proof.
   - cbn [ok_children] in H. apply andb_true_iff in H. exact H.
   - cbn [ok_children] in H. apply andb_true_iff in H. exact H.
   - cbn [ok_children] in H. apply andb_true_iff in H. destruct neg; exact H.
+  - cbn [ok_children] in H. apply andb_true_iff in H. exact H.
   - cbn [ok_children] in H. apply andb_true_iff in H. exact H.
 Qed.
 
@@ -228,12 +230,13 @@ Proof.
     + intros _. rewrite (inside_spec _ _ _ (rrank_spec lvl x F)). apply orb_true_iff. left. apply N.ltb_lt. lia.
     + cbn [stops]. rewrite (inside_spec _ _ _ Hrk), Hnr, andb_false_r, orb_false_r. apply N.ltb_ge. exact P.
     + apply C_suf_in; [exact Hin|exact HC].
-  - (* round group *)
-    cbn [efrag] in F. pose proof (paren_ok_group _ P) as Px.
+  - (* round group: its content is not a sequence, so every head ranks below the round limit *)
+    cbn [efrag] in F. apply andb_true_iff in F. destruct F as [Hns F]. apply negb_true_iff in Hns.
+    pose proof (paren_ok_group _ P) as Px.
     cbn [eitems rtree_of_expr] in *. cbn [app]. rewrite <- app_assoc. cbn [app].
     eapply C_open; [|exact HC]. cbn [blimit].
     apply (IH x); [cbn [size]; lia|exact F|exact Px| | |].
-    + intros _. destruct (hdef_ranked_RL lvl x F) as (p0 & Hp0 & Hl0). eapply inside_below; [exact Hp0|exact Hl0].
+    + intros _. destruct (hdef_ranked_RL lvl x F Hns) as (p0 & Hp0 & Hl0). eapply inside_below; [exact Hp0|exact Hl0].
     + exact I.
     + apply C_close.
   - (* nested expression: the braces are brackets *)
@@ -284,7 +287,7 @@ Proof.
     destruct (efrag_binary _ _ _ _ _ F Hb) as [Fl Fr]. destruct (paren_ok_binary _ _ _ _ Hb P) as [Pl Pr].
     pose proof (ok_children_binary _ _ _ _ Hb (paren_ok_children _ P)) as Hc.
     assert (Sl : (size l < size e /\ size r < size e)%nat).
-    { destruct e; try discriminate Hb; cbn [as_binary] in Hb; try (destruct k; try discriminate Hb);
+    { destruct e; try discriminate Hb; cbn [as_binary] in Hb; try (destruct k; try discriminate Hb); try (destruct s; try discriminate Hb);
         injection Hb as <- <- <-; cbn [size]; lia. }
     assert (Hlo : left_open e = true).
     { destruct e; try discriminate Hb; reflexivity. }
